@@ -62,4 +62,9 @@ def execute(mod, scn):
     out = in_child(_run, mod.__name__, scn)
     if "child_error" in out:
         return {"harness_error": f"scenario child: {out['child_error']} {out.get('trace', '')}", "violations": [], "stats": {}}
+    upd = out.pop("_cache_updates", None)
+    if upd and hasattr(mod, "SHARED_CACHE"):
+        if len(mod.SHARED_CACHE) > 4000:
+            mod.SHARED_CACHE.clear()
+        mod.SHARED_CACHE.update(upd)  # pure functions of their key; later children inherit them at fork time
     return out
